@@ -120,4 +120,154 @@ theorem apiLoop_hdr_ok (o : Opts) (a : Api) (bs : List Nat) (first : Bool) (fuel
       rcases X with ⟨x1, x2, x3⟩
       cases x2 <;> rfl
 
+theorem normCalls_cons (p : Out × List Event) (l : List (Out × List Event)) :
+    normCalls (p :: l) = (p.1, p.2.map normEvent) :: normCalls l := rfl
+
+theorem fold_snoc_seq (i0 : IState) (evs : List DecProg.Ev) (t : St) (done : List (Out × List Event)) (pend : List Event)
+    (h : evs.reverse.foldl iStep i0 = { t := t, done := done, pend := pend, bad := false })
+    (size pv prof ds hcrc fcrc n : Nat) :
+    (DecProg.Ev.seq size pv prof ds hcrc fcrc n :: evs).reverse.foldl iStep i0 =
+      { t := { t with q := {}, look := {} }, done := done ++ [(.fit ⟨⟨size, pv, prof, ds, hcrc⟩, t.q.msgs.reverse, fcrc⟩, pend)],
+        pend := [], bad := false } := by
+  rw [fold_cons, h]; rfl
+
+open Fit.ReadBuffer in
+/-- **THE LOOP.** From a sequence boundary: (C)'s `Next`/`Decode` loop returns what `apiOf` rebuilds from (D)'s run on the
+exact-n reader over the same bytes. -/
+theorem loop_link (o : Opts) (hfac : FacOK o.fac) (hbt : facBtOK o.fac = true) (hfd : facFdOK o.fac = true) :
+    ∀ (fuel : Nat) (a : Api) (bs : List Nat) (first : Bool) (evs : List DecProg.Ev) (done : List (Out × List Event)) (tt : St),
+    a.d = St.fresh o bs → (a.n == 0) = first → DecApi.IsBytes bs → bs.length < 4294967296 →
+    evs.reverse.foldl iStep { t := St.fresh o [] } = { t := tt, done := done, pend := [], bad := false } →
+    tt.o = o → tt.q = {} → tt.look = {} →
+    apiOf o (runExact (DecProg.decodeLoop o.chk fuel first evs) bs) = done ++ normCalls (apiLoop fuel a) := by
+  intro fuel
+  induction fuel with
+  | zero =>
+    intro a bs first evs done tt _ _ _ _ hfold _ _ _
+    simp [DecProg.decodeLoop, runExact, apiOf, hfold, apiLoop, normCalls]
+  | succ fuel ih =>
+    intro a bs first evs done tt ha hn hb hlen hfold hto htq htl
+    unfold DecProg.decodeLoop
+    apply fileHeader_wp (Φ := fun out => apiOf o out = done ++ normCalls (apiLoop (fuel + 1) a))
+    · -- the stream is empty
+      intro hbs
+      subst hbs
+      rw [apiLoop_hdr_err o a [] first fuel .eof ha hn rfl]
+      cases first <;> simp [runExact, apiOf, hfold, normCalls, DecProg.Err.endsIteration, errC, errBC]
+    · -- the header does not decode
+      intro e' r hne he hends
+      rw [apiLoop_hdr_err o a bs first fuel (errB e') ha hn he]
+      cases first <;> simp [runExact, apiOf, hfold, normCalls, hends, errC_eq]
+    · -- the header decodes
+      intro h rest he
+      obtain ⟨a2, ha2d, ha2n, ha2f, hloop⟩ := apiLoop_hdr_ok o a bs first fuel h rest ha hn he
+      rw [hloop]
+      have hok := Integrity.decodeFileHeader_ok he
+      have hrl : rest.length ≤ bs.length := by rw [hok.2.2.2.1, List.length_drop]; omega
+      have hbr : DecApi.IsBytes rest := by rw [hok.2.2.2.1]; exact IsBytes.drop' hb _
+      generalize hs1 : afterHeader o bs h rest = s1 at ha2d ha2f ⊢
+      have hs1o : s1.o = o := by rw [← hs1]; rfl
+      have hs1r : s1.rest = rest := by rw [← hs1]; rfl
+      have hi1 : Inv s1 := by
+        rw [← hs1]
+        exact ⟨hbr, DefsOK.empty, (by decide : (0 : Nat) < 4294967296), hfac⟩
+      have hcd1 : CD o.chk s1 { evs := evs } := by
+        rw [← hs1]
+        exact ⟨rfl, rfl, rfl, by simp [afterHeader]; omega, hbr⟩
+      have hT1 : Tables s1 { evs := evs } := by rw [← hs1]; exact ⟨rfl, rfl⟩
+      have hF1 : Follows o s1 { evs := evs } done [] := by
+        refine ⟨tt, hfold, ?_⟩
+        rw [← hs1]
+        exact ⟨hto, ⟨by rw [htl]; rfl, by rw [htl]; rfl, by rw [htl]; rfl⟩, by rw [htq]; rfl, by rw [htq]; rfl, by rw [htq]; rfl,
+          by rw [htq]; rfl, by rw [htq]; rfl⟩
+      have hsat := decodeMessages_sat (fuelOf s1) s1 hi1 (by simp [fuelOf])
+      rw [← hs1r]
+      apply messages_link (apiOf o) (eofBlind_apiOf o) o o.chk h.dataSize _ _ done (fuelOf s1) h.dataSize s1 _ [] hcd1 hT1 hF1 hi1
+        (by rw [hs1o]; exact hbt) (by rw [hs1o]; exact hfd) (by rw [← hs1]; rfl) (by simp) (by simp [fuelOf])
+      rcases hdm : decodeMessages (fuelOf s1) s1 with ⟨s2, evs2, r⟩
+      rw [hdm] at hsat
+      obtain ⟨_, hi2, hr2, _⟩ := hsat
+      simp only at hi2 hr2
+      have hs2o : s2.o = o := by rw [hr2.o, hs1o]
+      cases r with
+      | panic => trivial
+      | hang => trivial
+      | err e =>
+        simp only [List.nil_append]
+        intro st' hF' hee
+        rw [apiOf_fail hF', hee]
+        simp [decodeTail, DecApi.fail, normCalls]
+      | ok u =>
+        cases u
+        simp only [List.nil_append]
+        intro st' hcd' hT' hF'
+        unfold DecProg.fileCrc
+        simp only [decodeTail]
+        rw [decodeCRC_eq]
+        have hlen2 := hr2.len
+        match hrest2 : s2.rest with
+        | [] =>
+          rw [runExact_read_short _ _ _ (by simp)]
+          simp only [runExact]
+          rw [apiOf_fail hF']
+          simp [DecApi.fail, normCalls, errC]
+        | [_] =>
+          rw [runExact_read_short _ _ _ (by simp)]
+          simp only [runExact]
+          rw [apiOf_fail hF']
+          simp [DecApi.fail, normCalls, errC]
+        | lo :: hi :: r3 =>
+          rw [runExact_read_ok _ _ _ (by simp)]
+          dsimp only
+          generalize hc2 : DecProg.le16 (List.take 2 (lo :: hi :: r3)) = c
+          have hc2' : c = lo + 256 * hi := by rw [← hc2]; rfl
+          subst hc2'
+          have hd2 : List.drop 2 (lo :: hi :: r3) = r3 := rfl
+          rw [hd2, hcd'.crc, ← hcd'.chk]
+          by_cases hc : s2.o.chk = true ∧ s2.q.crc16 ≠ lo + 256 * hi
+          · rw [if_pos hc, if_pos hc]
+            simp only [runExact]
+            rw [apiOf_fail hF']
+            simp [DecApi.fail, normCalls, errC]
+          · rw [if_neg hc, if_neg hc]
+            simp only
+            rw [hcd'.chk]
+            obtain ⟨t', hf', hsh'⟩ := hF'
+            -- (C)'s decoder after the sequence: a new decoder on the rest of the stream
+            have ha2 : a2.d = St.fresh o r3 := by
+              rw [ha2d, hdm]
+              simp only [decodeTail]
+              rw [decodeCRC_eq, hrest2]
+              simp only
+              rw [if_neg hc]
+              simp only [release, resetSeq, St.fresh, hs2o]
+            have ha2n' : (a2.n == 0) = false := by
+              have hx : (decodeTail (decodeMessages (fuelOf s1) s1)).1.rest = r3 := by rw [← ha2d, ha2]; rfl
+              cases first with
+              | true =>
+                have := ha2f rfl
+                rw [hx] at this
+                have h3 : r3.length + 2 = s2.rest.length := by rw [hrest2]; simp
+                rw [hs1r] at hlen2
+                simp; omega
+              | false =>
+                have : a.n ≠ 0 := by simpa using hn
+                simp; omega
+            have hb3 : DecApi.IsBytes r3 := by
+              have := hi2.1
+              rw [hrest2] at this
+              exact fun x hx => this x (by simp [hx])
+            have hl3 : r3.length < 4294967296 := by
+              have h3 : r3.length + 2 = s2.rest.length := by rw [hrest2]; simp
+              rw [hs1r] at hlen2; omega
+            have hih := ih a2 r3 false _ _ _ ha2 ha2n' hb3 hl3
+              (fold_snoc_seq _ _ _ _ _ hf' h.size ((List.take (h.size - 1) (List.drop 1 bs)).headD 0)
+                (DecProg.le16 (List.drop 1 (List.take (h.size - 1) (List.drop 1 bs)))) h.dataSize h.crc (lo + 256 * hi) st'.msgs)
+              (by simp only; rw [hsh'.o, hs2o]) rfl rfl
+            rw [hih, normCalls_cons, List.append_assoc]
+            have hhdr : s2.q.hdr = ⟨h.size, ((List.take (h.size - 1) (List.drop 1 bs)).headD 0),
+                (DecProg.le16 (List.drop 1 (List.take (h.size - 1) (List.drop 1 bs)))), h.dataSize, h.crc⟩ := by
+              rw [hr2.hdr, ← hs1]; rfl
+            simp only [hhdr, hsh'.msgs, List.singleton_append]
+
 end Fit.Link
